@@ -143,8 +143,9 @@ def utils_obligations():
                UTILS_THEOREMS, UTILS_IMPORTS)
 
 
-CHECKS_FUNCS = ["check_data_names", "check_extra_coords_names"]
-CHECKS_THEOREMS = ["src_check_data_names_eq", "src_check_extra_coords_names_eq"]
+CHECKS_FUNCS = ["check_data_names", "check_extra_coords_names", "check_data", "check_coordinates", "check_fit_input"]
+CHECKS_THEOREMS = ["src_check_data_names_eq", "src_check_extra_coords_names_eq", "src_check_data_eq",
+                   "src_check_coordinates_eq", "src_check_fit_input_eq"]
 CHECKS_IMPORTS = "From Verde Require Import Model.Checks Proofs.PyLiteBridge."
 
 
